@@ -28,6 +28,15 @@ namespace c08
             return 0;
         }
         virtual void next_iteration() {}
+        // what allocator_traits::max_node_size / max_array_size of the allocator behind the leaf say NOW
+        virtual std::size_t max_node_size()
+        {
+            return std::size_t(-1);
+        }
+        virtual std::size_t max_array_size()
+        {
+            return std::size_t(-1);
+        }
     };
 
     // instrumented backend: first fit over 16 byte granules of a tiny buffer; the three buffers are adjacent
@@ -49,6 +58,14 @@ namespace c08
             std::memset(len, 0, sizeof len);
         }
         void destroy() override {}
+        std::size_t max_node_size() override
+        {
+            return granules * 16;
+        }
+        std::size_t max_array_size() override
+        {
+            return granules * 16;
+        }
         void* alloc(bool try_, const shape& s) override
         {
             std::size_t need = (s.bytes() + 15) / 16;
@@ -166,6 +183,14 @@ namespace c08
         int cur_impl(...)
         {
             return 0;
+        }
+        std::size_t max_node_size() override
+        {
+            return T::max_node_size(*a);
+        }
+        std::size_t max_array_size() override
+        {
+            return T::max_array_size(*a);
         }
         int iterations() override
         {
@@ -355,6 +380,16 @@ namespace c08
         int idx = I;
         leaf() = default;
         explicit leaf(int i) : idx(i) {}
+        // forwarded so that a composition that consults the maxima of its sub-allocators sees the real, possibly shrinking
+        // values (iteration_allocator: capacity_left)
+        std::size_t max_node_size() const
+        {
+            return g_leaf[idx].be ? g_leaf[idx].be->max_node_size() : std::size_t(-1);
+        }
+        std::size_t max_array_size() const
+        {
+            return g_leaf[idx].be ? g_leaf[idx].be->max_array_size() : std::size_t(-1);
+        }
         void* allocate_node(std::size_t size, std::size_t align)
         {
             return L_alloc(idx, false, node_shape(size, align));
